@@ -248,4 +248,37 @@ def entriesOf (t : ClassTab) : List (Entry String) :=
         | .nonEmpty g => some g
         | .flag g => some g }
 
+/-! ## `cxxNameDouble::merge_redox`: how `cxxSolution::read_raw` files the lines of a `-totals` block -/
+
+section
+variable {V : Type}
+
+/-- `cxxNameDouble` is a `std::map<std::string, double>`: here an association list with unique keys (the driver prints it
+in key order) -/
+abbrev NameDouble (V : Type) := List (String × V)
+
+/-- `redox_name.find("(")`: does the name carry a valence state? -/
+def isRedox (n : String) : Bool := n.toList.contains '('
+
+/-- `redox_name.substr(0, pos)`: the element of a valence-state name (the name itself when there is no parenthesis) -/
+def eltName (n : String) : String := String.ofList (n.toList.takeWhile (· != '('))
+
+/-- `current->first.find(substring) == 0` -/
+def startsWith (p k : String) : Bool := p.toList.isPrefixOf k.toList
+
+def ndGet (m : NameDouble V) (k : String) : Option V := (m.find? (·.1 == k)).map (·.2)
+def ndErase (m : NameDouble V) (k : String) : NameDouble V := m.filter (·.1 != k)
+/-- `(*this)[k] = v` -/
+def ndSet (m : NameDouble V) (k : String) (v : V) : NameDouble V := ndErase m k ++ [(k, v)]
+
+/-- one iteration of the loop of `cxxNameDouble::merge_redox` -/
+def mergeOne (m : NameDouble V) (e : String × V) : NameDouble V :=
+  if isRedox e.1 then ndSet (ndErase m (eltName e.1)) e.1 e.2
+  else ndSet (m.filter fun x => !startsWith (e.1 ++ "(") x.1) e.1 e.2
+
+/-- `cxxNameDouble::merge_redox(source)` -/
+def mergeRedox (m src : NameDouble V) : NameDouble V := src.foldl mergeOne m
+end
+
+
 end PhreeqcVerif.Raw
